@@ -594,7 +594,8 @@ static void RunHistory(const std::string & hid, int nsess, const std::vector<mj:
             if ((si == NULL)||(si->s != from)) {snprintf(b, sizeof(b), "session %d received Message n=%d (from %d), which was not sent in this burst", r, n, from); bad.push_back(b); continue;}
             if ((lastN.count(from))&&(n < lastN[from])) {snprintf(b, sizeof(b), "session %d received Message n=%d of sender %d after n=%d: out of order", r, n, from, lastN[from]); bad.push_back(b);}
             lastN[from] = n; copiesOf[n]++;
-            const bool sidOK = (si->forge == "none") ? (sid == "none") : ((si->forge == "nonstr") ? ((sid == "nonstr")||(sid == SessName(from))) : (sid == SessName(from)));
+            // "if the delivered Message has a string field of that name, it names the sender" (a field the library would add, or a non-string field it would replace, is as good)
+            const bool sidOK = (si->forge == "none") ? ((sid == "none")||(sid == SessName(from))) : ((si->forge == "nonstr") ? ((sid == "nonstr")||(sid == SessName(from))) : (sid == SessName(from)));
             if (!sidOK) {snprintf(b, sizeof(b), "session %d received Message n=%d from session %d with sender-identity field [%s] (sent with [%s])", r, n, from, sid.c_str(), si->forge.c_str()); bad.push_back(b);}
          }
          for (size_t q=0; q<sends.size(); q++)
@@ -735,15 +736,7 @@ static void Directed(std::vector<std::pair<std::string, std::vector<mj::Value> >
       {KEYS1(MkPat(false, "*", "*")) st.push_back(EvSend(0, ks, "none", 0));}
       {KEYS2(MkPat(false, "a", "b"), MkPat(false, "b", "a")) st.push_back(EvSend(0, ks, "none", 0));}
       {KEYS2(MkPat(false, "a"), MkPat(false, "b", "a")) st.push_back(EvSend(0, ks, "none", 0));}
-      {KEYS2(MkPat(false, "j*"), MkPat(false, "b")) st.clear();}     // (not in the token table: left out)
       hs.push_back(std::make_pair(std::string("doc-example"), st));
-      hs.back().second.clear();
-      std::vector<mj::Value> & s2 = hs.back().second; s2.push_back(EvSet(1, a, 1)); s2.push_back(EvSet(1, b, 1)); s2.push_back(EvSet(1, ab, 1)); s2.push_back(EvSet(1, ba, 1)); s2.push_back(EvSet(2, b, 2));
-      {KEYS2(MkPat(false, "a"), MkPat(false, "b")) s2.push_back(EvSend(0, ks, "none", 0));}
-      {KEYS1(MkPat(false, "*")) s2.push_back(EvSend(0, ks, "none", 0));}
-      {KEYS1(MkPat(false, "*", "*")) s2.push_back(EvSend(0, ks, "none", 0));}
-      {KEYS2(MkPat(false, "a", "b"), MkPat(false, "b", "a")) s2.push_back(EvSend(0, ks, "none", 0));}
-      {KEYS2(MkPat(false, "a"), MkPat(false, "b", "a")) s2.push_back(EvSend(0, ks, "none", 0));}
    }
    {  // the default route: applied to Messages without keys, cleared again -> broadcast; keys in the Message win over it
       std::vector<mj::Value> st; st.push_back(EvSet(1, a, 1)); st.push_back(EvSet(2, b, 1));
